@@ -2138,8 +2138,19 @@ def suffix_findings(ctx):
     if not letters:
         raise AnalysisError('Lexicon: the INT pattern has no letter suffix (intsuffix vanished?)')
     n_int = 0
+    intnode = ix.cls('ExprNodes', 'IntNode')
     for m, qn, owner, fn, lt in literal_text_functions(ix):
         if m is not pa:
+            continue
+        builds = False
+        for c in walk_no_nested(fn):
+            if isinstance(c, ast.Call):
+                rr = ix.resolve_expr(pa, c.func)
+                if rr and rr[0] == 'class' and rr[1] is intnode:
+                    builds = True
+        if not builds:
+            # a helper that only receives the text (a probe, a validator): the stripping obligation belongs to the function that builds the node from it
+            out.append(('Parsing.%s:INT suffix' % qn, 'receives INT text, builds no IntNode', m.rel, fn.lineno, 'receives the text of an INT token but builds no IntNode from it; decided at the function that does', True))
             continue
         for var in sorted(lt.roots):
             n_int += 1
